@@ -1,0 +1,15 @@
+//go:build verif
+
+// Package mgr: machine-checked contracts (comment-only; read by /verif/govc).
+package mgr
+
+// Logging is outside every property: the log helpers are assumed to neither panic nor change module state
+// (trusted; log/slog internals are not modelled).
+//@ func Manager.log
+//@   option trusted pure nilrecv
+//@ func WorkerCtx.log
+//@   option trusted pure nilrecv
+//@ func Manager.LogAttrs
+//@   option trusted pure nilrecv
+//@ func WorkerCtx.LogAttrs
+//@   option trusted pure nilrecv
